@@ -268,7 +268,7 @@ class Bits(object):
         return (self.ival!=a)
 
     def __neg__(self):
-        return Bits((-self.ival) % self.mask, self.size)
+        return Bits((-self.ival) & self.mask, self.size)
 
     def __iter__(self):
         for x in range(self.size):
